@@ -238,6 +238,15 @@ def exec (P : Prog) (fuel : Nat) : List Op → M → Option M
     | [] => exec P fuel os m'
     | _ :: _ => none
 
+/-- `exec` that also reports the length of the log after each operation (what the driver prints) -/
+def execMarks (P : Prog) (fuel : Nat) : List Op → M → List Nat → Option (M × List Nat)
+  | [], m, marks => some (m, marks)
+  | o :: os, m, marks =>
+    let m' := run P fuel (startOp o m)
+    match m'.stack with
+    | [] => execMarks P fuel os m' (marks ++ [m'.core.log.length])
+    | _ :: _ => none
+
 /-! ### listener wiring of `listen_to_dependencies` (strings; used by the driver, compared with the real sinks) -/
 
 /-- lines 614-618: `_handle_<component>_<Event>` ↦ component -/
